@@ -3,6 +3,10 @@ TPT = 'std::chrono::time_point<std::chrono::_V2::system_clock, std::chrono::dura
 TYPES = {'SCHED': 'cocls::scheduler', 'ITEM': 'cocls::scheduler::SchItem', 'PROM': 'cocls::promise<void>',
          'VECT': 'std::vector<cocls::scheduler::SchItem, std::allocator<cocls::scheduler::SchItem> >'}
 T_EXPIRED = {'EXPIRED': 'std::variant<%s, cocls::promise<void> >' % TPT}
+VARX = r'^std::variant<std::chrono::time_point<.*>, cocls::promise<void> >::variant<'
+VAR_NAMES = dict(var_from_promise=VARX + r'cocls::promise<void>, void, void, cocls::promise<void>, void>\(cocls::promise<void>&&\)$',
+                 var_from_tp_rv=VARX + r'std::chrono::time_point<[^&]*, void, void, std::chrono::time_point<.*, void>\(std::chrono::time_point<.*>&&\)$',
+                 var_from_tp_lv=VARX + r'std::chrono::time_point<.*>&, void, void, std::chrono::time_point<.*, void>\(std::chrono::time_point<.*>&\)$')
 T_SPB = {'SPB': 'cocls::suspend_point<bool>', 'SP': 'cocls::suspend_point<void>', 'EPTR': 'std::__exception_ptr::exception_ptr'}
 T_FUT = {'FUT': 'cocls::future<void>'}
 RX = dict(
@@ -43,9 +47,9 @@ def unit(name, alias, roots, names=None, types=None, boundary=(), **kw):
 UNITS = [
     unit('compare_item', 'sch_compare_item', [RX['compare_item']]),
     unit('pop_item', 'sch_pop_item', [RX['pop_item'], RX['item_dtor']], names=HEAP),
-    unit('get_expired_lk', 'sch_get_expired_lk', [RX['get_expired_lk'], RX['item_dtor']], names=HEAP, types=T_EXPIRED, loop_contracts=True),
-    unit('get_expired', 'sch_get_expired', [RX['get_expired'], RX['item_dtor']], names=dict(HEAP, sch_get_expired_lk=RX['get_expired_lk']), types=T_EXPIRED, loop_contracts=True),
-    unit('remove', 'sch_remove', [RX['remove'], RX['remove_pred'], RX['item_dtor']], names=dict(HEAP, vec_find_if=RX['find_if'], vec_find_pred=RX['remove_pred']), loop_contracts=True),
+    unit('get_expired_lk', 'sch_get_expired_lk', [RX['get_expired_lk'], RX['item_dtor']], names=HEAP, names_opt=VAR_NAMES, boundary=[VARX], types=T_EXPIRED, loop_contracts=True, object_bits=9),
+    unit('get_expired', 'sch_get_expired', [RX['get_expired'], RX['item_dtor']], names=dict(HEAP, sch_get_expired_lk=RX['get_expired_lk']), names_opt=VAR_NAMES, boundary=[VARX], types=T_EXPIRED, loop_contracts=True, object_bits=9),
+    unit('remove', 'sch_remove', [RX['remove'], RX['remove_pred'], RX['item_dtor']], names=dict(HEAP, vec_find_if=RX['find_if'], vec_find_pred=RX['remove_pred']), loop_contracts=True, object_bits=10),
     unit('schedule', 'sch_schedule', [RX['schedule'], RX['item_move'], RX['item_dtor']], names=dict(HEAP, sch_item_move=RX['item_move'])),
 ]
 META = {}
